@@ -1481,8 +1481,15 @@ class VacancyMediated(object):
         symmprobSV2 = np.array([np.sqrt(prob[i] * prob[f]) for i,f in self.om2_SP])
         D0ss = np.dot(self.Dom2, omega2 * symmprobSV2) / self.N
         D0sv = -D0ss
-        D0vv = (np.dot(self.Dom1, omega1 * symmprobSV1) -
-                np.dot(self.Dom1_om0 + self.Dom2_om0, omega0 * symmprobV0)) / self.N
+        # reference (non-interacting) contribution: same jumps, omega0 rates, and the reference
+        # probability probS*probV of the solute-vacancy state (solute site matters if probS varies)
+        prob0 = np.array([probS[s] * probV[v] for (s, v) in self.kineticsvWyckoff])
+        symmprob0SV1 = np.array([np.sqrt(prob0[i] * prob0[f]) for i, f in self.om1_SP])
+        symmprob0SV2 = np.array([0.5 * (probS[self.kineticsvWyckoff[i][0]] + probS[self.kineticsvWyckoff[f][0]]) *
+                                 np.sqrt(probV[self.kineticsvWyckoff[i][1]] * probV[self.kineticsvWyckoff[f][1]])
+                                 for i, f in self.om2_SP])
+        D0vv = (np.dot(self.Dom1, omega1 * symmprobSV1 - omega0[self.om1_jt] * symmprob0SV1) -
+                np.dot(self.Dom2, omega0[self.om2_jt] * symmprob0SV2)) / self.N
         D2vv = D0ss.copy()
 
         # 4b. Bias vectors (before correction) and rate matrices
@@ -1501,9 +1508,11 @@ class VacancyMediated(object):
             # reference value is 0
             biasSvec[sv] = -np.dot(self.om2bias[sv, :], omega2escape[sv, :]) * np.sqrt(prob[starindex])
             # removed the om2 contribution--will be added back in later. Separation necessary for large_om2 case
+            # reference (non-interacting) probability of the state is probS*probV
+            prob0sqrt = probVsqrt[sv] * np.sqrt(probS[self.kineticsvWyckoff[starindex][0]])
             biasVvec[sv] = np.dot(self.om1bias[sv, :], omega1escape[sv, :]) * np.sqrt(prob[starindex]) - \
-                           np.dot(self.om1_b0[sv, :], omega0escape[svvacindex, :]) * probVsqrt[sv] - \
-                           np.dot(self.om2_b0[sv, :], omega0escape[svvacindex, :]) * probVsqrt[sv]
+                           np.dot(self.om1_b0[sv, :], omega0escape[svvacindex, :]) * prob0sqrt - \
+                           np.dot(self.om2_b0[sv, :], omega0escape[svvacindex, :]) * prob0sqrt
             # - biasSvec[sv]
         biasVvec_om2 = -biasSvec
 
